@@ -242,7 +242,9 @@ class HeapMixin:
     # ------------------------------------------------------------------
     def getattr(self, base, attr, node=None):
         if isinstance(base, Opt):
-            if self.branch(base.isnone, 'none-attr@%s' % getattr(node, 'lineno', '?')):
+            if self.spec_mode:
+                pass        # specification text guards the access itself
+            elif self.branch(base.isnone, 'none-attr@%s' % getattr(node, 'lineno', '?')):
                 self.raise_builtin('AttributeError', node=node)
             base = base.val
         if base is None:
